@@ -19,13 +19,16 @@ ASSUMPTIONS = c01.ASSUMPTIONS
 
 SHORT = [0]      # how many bitmap bytes the 'shortrec' record keeps (set per case)
 KINDS = ['truncated', 'oversized', 'badmti', 'unknownbit', 'badlen', 'badtyped', 'badpds', 'badicc', 'shortrec',
-         'shortfixed', 'shortvar2', 'shortvar3', 'surplus', 'unknownbit_end', 'unknownbit_128']
+         'shortfixed', 'shortvar2', 'shortvar3', 'surplus', 'unknownbit_end', 'unknownbit_128', 'baddate_hour', 'baddate_month']
 
 
 def custom_config():
     """a caller-supplied configuration: the packaged one WITHOUT elements 3, 49 and 71 — a record using one of them has
     an unknown bitmap bit for this reader, whatever the packaged configuration says"""
-    return {k: v for k, v in iu.pkg_config().items() if k not in ('3', '49', '71')}
+    cfg = {k: v for k, v in iu.pkg_config().items() if k not in ('3', '49', '71')}
+    cfg['7'] = {}          # listed but empty (a site file that blanks an element out): as good as not configured
+    cfg['8'] = None
+    return cfg
 
 
 def bm(bits):
@@ -81,6 +84,12 @@ def bad_record(kind, codec):
         return e('1240') + bm([2, 48]) + e('0212' + '050' + '0023003ABC0158000XXX')
     if kind == 'surplus':
         return e('1240') + bm([2]) + e('0212' + '7')
+    if kind == 'baddate_hour':       # DE12 (%y%m%d%H%M%S) with hour 25: no date in the configured format, whatever else it resembles
+        return e('1240') + bm([12]) + e('240101250000')
+    if kind == 'baddate_month':
+        return e('1240') + bm([12]) + e('241301120000')
+    if kind == 'emptybit':           # for custom_config(): bits 7 / 8 are LISTED there with an empty entry ({} / None)
+        return e('1240') + bm([2, 7]) + e('0212' + '0000')
     if kind == 'unknownbit_end':     # the unknown bit is above every present element; no byte is left for it
         return e('1240') + bm([2, 126]) + e('0212')
     if kind == 'unknownbit_128':     # a configured element flagged after the data has run out
@@ -186,8 +195,9 @@ def impl_eval(case):
 def model_line(case):
     data, _, _ = build(case)
     if case.get('custom'):
-        cid = c01.cfg_id({'cfg': custom_config()})
-        return [f'cfg.def\t{cid}\t{iu.cfg_wire(custom_config())}',
+        model_cfg = {k: v for k, v in custom_config().items() if v}      # empty entries: not configured
+        cid = c01.cfg_id({'cfg': model_cfg})
+        return [f'cfg.def\t{cid}\t{iu.cfg_wire(model_cfg)}',
                 f"ipm.read\t{cid}\t{case['codec']}\t{case['b']}\t{c07.c03max()}\thex:{data.hex()}"]
     return f"ipm.read\tpkg\t{case['codec']}\t{case['b']}\t{c07.c03max()}\thex:{data.hex()}"
 
@@ -225,6 +235,7 @@ def explore(run, tier):
                             cases.append(dict(c, custom=1))
                             if kind == 'unknownbit':
                                 cases.append(dict(c, custom=1, kind='custombit'))
+                                cases.append(dict(c, custom=1, kind='emptybit'))
                         if kind == 'shortrec':
                             for keep in (1, 8, 15):
                                 cases.append(dict(c, keep=keep))
